@@ -9,7 +9,7 @@ import RdpModel.Props.C18
   their size.
 -/
 namespace Rdp.Emit
-open Rdp Rdp.Spec
+open Rdp Rdp.Spec Rdp.Spec.Strict Rdp.Nla
 
 @[simp] theorem le16_length (n : Nat) : (le16 n).length = 2 := by simp [le16, encInt]
 @[simp] theorem le32_length (n : Nat) : (le32 n).length = 4 := by simp [le32, encInt]
@@ -73,5 +73,293 @@ theorem c04_userData_size (w h layout selected : Nat) (name : List Char) :
   have hc := c04_core_size w h layout selected name
   unfold userData block clientSecurityData clientNetworkData
   simp only [List.length_append, le16_length, le32_length, hc]
+
+/-! ### the strict decoder accepts the info packet for every string -/
+
+theorem takeN_append (a r : Bytes) (w : String) : takeN a.length (a ++ r) w = .ok (a, r) := by
+  unfold takeN
+  rw [if_neg (by simp)]
+  simp
+
+theorem takeN_len (n : Nat) (a r : Bytes) (w : String) (h : a.length = n) : takeN n (a ++ r) w = .ok (a, r) := by
+  subst h; exact takeN_append a r w
+
+theorem u16_le16 (n : Nat) (r : Bytes) (w : String) (h : n < 65536) : Strict.u16 (le16 n ++ r) w = .ok (n, r) := by
+  unfold Strict.u16
+  rw [takeN_len 2 (le16 n) r w (by simp)]
+  simp only [bind, Except.bind, pure, Except.pure, le16, encInt]
+  rw [leNat_leBytes 2 n (by omega)]
+
+theorem u32_le32 (n : Nat) (r : Bytes) (w : String) (h : n < 4294967296) : Strict.u32 (le32 n ++ r) w = .ok (n, r) := by
+  unfold Strict.u32
+  rw [takeN_len 4 (le32 n) r w (by simp)]
+  simp only [bind, Except.bind, pure, Except.pure, le32, encInt]
+  rw [leNat_leBytes 4 n (by omega)]
+
+theorem utf16le_even (s : List Char) : (utf16le s).length % 2 = 0 := by
+  unfold utf16le
+  rw [le16s_length]; omega
+
+theorem cbString_ok (x r : Bytes) (w : String) (hx : x.length % 2 = 0) :
+    cbString x.length (x ++ [0, 0] ++ r) w = .ok r := by
+  unfold cbString need
+  rw [if_pos (by simpa using hx)]
+  simp only [bind, Except.bind]
+  rw [List.append_assoc, takeN_append]
+  simp only
+  rw [show ([0, 0] ++ r : Bytes) = [0, 0] ++ r from rfl, takeN_len 2 [0, 0] r _ rfl]
+  simp [pure, Except.pure]
+
+theorem cbStringIncl_two (r : Bytes) (w : String) : cbStringIncl 2 ([0, 0] ++ r) w = .ok r := by
+  unfold cbStringIncl need
+  simp only [bind, Except.bind]
+  rw [if_pos (by decide)]
+  simp only
+  rw [takeN_len 2 [0, 0] r _ rfl]
+  simp [pure, Except.pure]
+
+theorem extendedInfo_strict : Strict.extendedInfo extendedInfo = .ok () := by
+  unfold Emit.extendedInfo Strict.extendedInfo
+  simp only [List.append_assoc]
+  rw [u16_le16 2 _ _ (by omega)]
+  simp only [bind, Except.bind, need]
+  rw [if_pos (by decide)]
+  simp only
+  rw [u16_le16 2 _ _ (by omega)]
+  simp only
+  rw [cbStringIncl_two]
+  simp only
+  rw [u16_le16 2 _ _ (by omega)]
+  simp only
+  rw [cbStringIncl_two]
+  simp only
+  rw [takeN_len 172 (zeros 172) _ _ (by simp)]
+  simp only
+  rw [u32_le32 0 _ _ (by omega)]
+  simp only
+  have : le32 0 = le32 0 ++ [] := by simp
+  rw [this, u32_le32 0 _ _ (by omega)]
+  simp
+
+/-- **The info packet is well formed for every credential string.**  For all domain, user
+    and password strings (any Unicode, any length whose UTF-16 form fits the 16-bit count),
+    with and without the extended part and the auto-logon flag, the strict MS-RDPBCGR
+    decoder accepts the emitted Client Info PDU: every cb* count equals the size of its
+    string, every string is null-terminated, the extended part is complete. -/
+theorem c04_clientInfo_strict (ext auto : Bool) (d u p : List Char)
+    (hd : (utf16le d).length < 65536) (hu : (utf16le u).length < 65536) (hp : (utf16le p).length < 65536) :
+    Strict.sdrqUserData 0 (clientInfo ext auto d u p) = .ok () := by
+  have hflag : infoFlags auto / 0x10 % 2 = 1 := by cases auto <;> decide
+  unfold sdrqUserData
+  have hhead : (clientInfo ext auto d u p).take 4 = [0x40, 0, 0, 0] := by
+    simp [clientInfo, le16, encInt, leBytes]
+  rw [if_pos hhead]
+  have hdrop : (clientInfo ext auto d u p).drop 4 =
+      le32 0 ++ (le32 (infoFlags auto) ++ (le16 ((utf16le d).length) ++ (le16 ((utf16le u).length) ++ (le16 ((utf16le p).length) ++
+        (le16 0 ++ (le16 0 ++ (utf16le d ++ [0, 0] ++ (utf16le u ++ [0, 0] ++ (utf16le p ++ [0, 0] ++ (([] : Bytes) ++ [0, 0] ++ (([] : Bytes) ++ [0, 0] ++
+          (if ext then extendedInfo else [])))))))))))) := by
+    simp [clientInfo, le16, encInt, leBytes, Nat.mod_eq_of_lt hd, Nat.mod_eq_of_lt hu, Nat.mod_eq_of_lt hp, List.append_assoc]
+  rw [hdrop]
+  unfold Strict.clientInfo
+  rw [u32_le32 0 _ _ (by omega)]
+  simp only [bind, Except.bind]
+  rw [u32_le32 _ _ _ (by cases auto <;> decide)]
+  simp only [need]
+  rw [if_pos (by simpa using hflag)]
+  simp only
+  rw [u16_le16 _ _ _ hd]; simp only
+  rw [u16_le16 _ _ _ hu]; simp only
+  rw [u16_le16 _ _ _ hp]; simp only
+  rw [u16_le16 0 _ _ (by omega)]; simp only
+  rw [u16_le16 0 _ _ (by omega)]; simp only
+  rw [cbString_ok _ _ _ (utf16le_even d)]; simp only
+  rw [cbString_ok _ _ _ (utf16le_even u)]; simp only
+  rw [cbString_ok _ _ _ (utf16le_even p)]; simp only
+  rw [show (0 : Nat) = ([] : Bytes).length from rfl, cbString_ok [] _ _ (by decide)]; simp only
+  rw [cbString_ok [] _ _ (by decide)]; simp only
+  cases ext
+  · simp
+  · simp only [if_true]
+    rw [if_neg (by simp [extendedInfo, le16, encInt])]
+    exact extendedInfo_strict
+
+/-! ### the strict decoders accept the connect-initial frame for every configuration -/
+
+theorem hasNulUnit_le16s (us : List Nat) (h : 0 ∈ us) : hasNulUnit (le16s us) = true := by
+  induction us with
+  | nil => simp at h
+  | cons u us ih =>
+    simp only [le16s, List.flatMap_cons]
+    have e : le16 u = [UInt8.ofNat (u % 256), UInt8.ofNat (u / 256 % 256)] := by simp [le16, encInt, leBytes]
+    rw [e]
+    simp only [List.cons_append, List.nil_append, hasNulUnit]
+    rcases List.mem_cons.mp h with h0 | hm
+    · subst h0; simp
+    · have := ih hm
+      simp only [le16s] at this
+      simp [this]
+
+theorem clientName_nul (name : List Char) : hasNulUnit (clientNameField name) = true := by
+  unfold clientNameField
+  apply hasNulUnit_le16s
+  have := c04_clientName_terminated name
+  exact List.mem_of_getLast? this
+
+/-- the strict decoder accepts the client core data block for every parameter value -/
+theorem csCore_strict (w h layout selected : Nat) (name : List Char) (hw : 1 ≤ w ∧ w < 65536) (hh : 1 ≤ h ∧ h < 65536)
+    (hl : layout < 4294967296) (hs : selected < 4294967296) :
+    csCore (clientCoreData w h layout selected name) = .ok () := by
+  unfold clientCoreData csCore
+  simp only [List.append_assoc]
+  rw [u32_le32 _ _ _ (by omega)]
+  simp only [bind, Except.bind, need]
+  rw [if_pos (by decide)]
+  simp only
+  rw [u16_le16 _ _ _ hw.2]; simp only
+  rw [if_pos (by simpa using hw.1)]; simp only
+  rw [u16_le16 _ _ _ hh.2]; simp only
+  rw [if_pos (by simpa using hh.1)]; simp only
+  rw [u16_le16 _ _ _ (by omega)]; simp only
+  rw [if_pos (by decide)]; simp only
+  rw [u16_le16 _ _ _ (by omega)]; simp only
+  rw [if_pos (by decide)]; simp only
+  rw [u32_le32 _ _ _ hl]; simp only
+  rw [u32_le32 _ _ _ (by omega)]; simp only
+  rw [takeN_len 32 (clientNameField name) _ _ (c04_clientName_32 name)]; simp only
+  rw [clientName_nul]
+  simp only [if_true]
+  rw [u32_le32 _ _ _ (by omega)]; simp only
+  rw [u32_le32 _ _ _ (by omega)]; simp only
+  rw [u32_le32 _ _ _ (by omega)]; simp only
+  rw [takeN_len 64 (zeros 64) _ _ (by simp)]; simp only
+  have hlen : (le16 0xCA01 ++ (le16 1 ++ (le32 0 ++ (le16 0x18 ++ (le16 0x0a ++ (le16 1 ++ (zeros 64 ++ ([0] ++ ([0] ++ le32 selected))))))))).length = 84 := by
+    simp only [List.length_append, le16_length, le32_length, zeros_length, List.length_cons, List.length_nil]
+  rw [hlen]
+  have ht : csCore.tail [2, 2, 4, 2, 2, 2, 64, 1, 1, 4, 4, 4, 2, 4, 4] 84 = true := by decide
+  rw [if_pos ht]
+
+theorem blocksF_step (f ty : Nat) (body rest : Bytes) (seen : List Nat) (hty : ty < 65536) (hb : body.length + 4 < 65536)
+    (hns : ty ∉ seen) (hfirst : seen ≠ [] ∨ ty = 0xC001)
+    (hbody : (if ty = 0xC001 then csCore body else if ty = 0xC002 then csSecurity body else if ty = 0xC003 then csNet body else .ok ()) = .ok ()) :
+    blocksF (f + 1) (block ty body ++ rest) seen = blocksF f rest (ty :: seen) := by
+  have hne : block ty body ++ rest ≠ [] := by simp [block, le16, encInt, leBytes]
+  conv => lhs; unfold blocksF
+  rw [if_neg hne]
+  unfold block
+  simp only [List.append_assoc, Nat.mod_eq_of_lt (show body.length < 65536 by omega)]
+  rw [u16_le16 _ _ _ hty]
+  simp only [bind, Except.bind, need]
+  rw [u16_le16 _ _ _ hb]; simp only
+  rw [if_pos (by simp)]; simp only
+  rw [show body.length + 4 - 4 = body.length by omega, takeN_append]; simp only
+  rw [if_pos (by simpa using hns)]; simp only
+  rw [if_pos (by simpa using hfirst)]; simp only
+  rw [hbody]
+
+theorem userData_strict (w h layout selected : Nat) (name : List Char) (hw : 1 ≤ w ∧ w < 65536) (hh : 1 ≤ h ∧ h < 65536)
+    (hl : layout < 4294967296) (hs : selected < 4294967296) :
+    blocks (userData w h layout selected name) [] = .ok () := by
+  unfold blocks
+  rw [c04_userData_size]
+  unfold userData
+  have hcore := csCore_strict w h layout selected name hw hh hl hs
+  have hcl := c04_core_size w h layout selected name
+  rw [show (236 / 4 + 2 : Nat) = 60 + 1 from rfl, List.append_assoc]
+  rw [blocksF_step 60 0xC001 _ _ [] (by omega) (by omega) (by simp) (Or.inr rfl) (by simpa using hcore)]
+  rw [show (60 : Nat) = 59 + 1 from rfl]
+  rw [blocksF_step 59 0xC002 _ _ _ (by omega) (by simp [clientSecurityData]) (by simp) (Or.inl (by simp)) (by rfl)]
+  have : block 0xC003 clientNetworkData = block 0xC003 clientNetworkData ++ [] := by simp
+  rw [this, show (59 : Nat) = 58 + 1 from rfl]
+  rw [blocksF_step 58 0xC003 _ _ _ (by omega) (by simp [clientNetworkData]) (by simp) (Or.inl (by simp)) (by rfl)]
+  rfl
+
+theorem conference_bytes (ud : Bytes) (hud : ud.length = 236) :
+    conferenceCreateRequest ud = .ok ([0, 5, 0, 20, 124, 0, 1, 0x80, 250, 0, 8, 0, 0x10, 0, 1, 0xc0, 0, 0x44, 0x75, 0x63, 0x61, 0x80, 236] ++ ud) := by
+  unfold conferenceCreateRequest
+  have h1 : Per.writeOid [0, 0, 20, 124, 0, 1] = .ok [5, 0, 20, 124, 0, 1] := by decide
+  have h2 : Per.writeNumericString [0x31] 1 = .ok [0, 0x10] := by decide
+  have hw1 : Per.writeLength ((ud.length % 65536 + 14) % 65536) = [0x80, 250] := by rw [hud]; decide
+  have hw2 : Per.writeOctetStream ud 0 = [0x80, 236] ++ ud := by
+    simp only [Per.writeOctetStream, hud]
+    have : Per.writeLength ((if 0 ≤ 236 then 236 - 0 else 0) % 65536) = [128, 236] := by decide
+    rw [this]
+  have hw3 : Per.writeOctetStream [0x44, 0x75, 0x63, 0x61] 4 = [0, 0x44, 0x75, 0x63, 0x61] := by decide
+  rw [h1, h2, hw1, hw2, hw3]
+  simp [Per.writePadding]
+
+theorem gcc_strict (ud : Bytes) (hud : ud.length = 236) (hb : blocks ud [] = .ok ()) :
+    gccCreateRequest ([0, 5, 0, 20, 124, 0, 1, 0x80, 250, 0, 8, 0, 0x10, 0, 1, 0xc0, 0, 0x44, 0x75, 0x63, 0x61, 0x80, 236] ++ ud) = .ok () := by
+  unfold gccCreateRequest
+  simp [takeN, perLen, Strict.u8, need, bind, Except.bind, pure, Except.pure, hud, leNat, hb]
+
+def ciPrefix : Bytes := [127, 101, 130, 1, 105, 4, 1, 1, 4, 1, 1, 1, 1, 255, 48, 26, 2, 1, 34, 2, 1, 2, 2, 1, 0, 2, 1, 1, 2, 1, 0, 2, 1, 1, 2, 3, 0, 255, 255, 2, 1, 2, 48, 25, 2, 1, 1, 2, 1, 1, 2, 1, 1, 2, 1, 1, 2, 1, 0, 2, 1, 1, 2, 2, 4, 32, 2, 1, 2, 48, 32, 2, 3, 0, 255, 255, 2, 3, 0, 252, 23, 2, 3, 0, 255, 255, 2, 1, 1, 2, 1, 0, 2, 1, 1, 2, 3, 0, 255, 255, 2, 1, 2, 4, 130, 1, 3]
+
+theorem connectInitial_bytes (conf : Bytes) (hc : conf.length = 259) : connectInitial conf = ciPrefix ++ conf := by
+  unfold connectInitial
+  have e1 : derOctets [1] = [4, 1, 1] := by decide
+  have e2 : domainParameters [34, 2, 0, 1, 0, 1, 0xffff, 2] = [48, 26, 2, 1, 34, 2, 1, 2, 2, 1, 0, 2, 1, 1, 2, 1, 0, 2, 1, 1, 2, 3, 0, 255, 255, 2, 1, 2] := by decide
+  have e3 : domainParameters [1, 1, 1, 1, 0, 1, 0x420, 2] = [48, 25, 2, 1, 1, 2, 1, 1, 2, 1, 1, 2, 1, 1, 2, 1, 0, 2, 1, 1, 2, 2, 4, 32, 2, 1, 2] := by decide
+  have e4 : domainParameters [0xffff, 0xfc17, 0xffff, 1, 0, 1, 0xffff, 2] = [48, 32, 2, 3, 0, 255, 255, 2, 3, 0, 252, 23, 2, 3, 0, 255, 255, 2, 1, 1, 2, 1, 0, 2, 1, 1, 2, 3, 0, 255, 255, 2, 1, 2] := by decide
+  have e5 : derOctets conf = [4, 130, 1, 3] ++ conf := by
+    simp only [derOctets, derTLV, hc]
+    have : derLen 259 = [130, 1, 3] := by decide
+    rw [this]; rfl
+  rw [e1, e2, e3, e4, e5]
+  generalize hB : ([4, 1, 1] ++ [4, 1, 1] ++ [1, 1, 255] ++ [48, 26, 2, 1, 34, 2, 1, 2, 2, 1, 0, 2, 1, 1, 2, 1, 0, 2, 1, 1, 2, 3, 0, 255, 255, 2, 1, 2] ++
+      [48, 25, 2, 1, 1, 2, 1, 1, 2, 1, 1, 2, 1, 1, 2, 1, 0, 2, 1, 1, 2, 2, 4, 32, 2, 1, 2] ++
+      [48, 32, 2, 3, 0, 255, 255, 2, 3, 0, 252, 23, 2, 3, 0, 255, 255, 2, 1, 1, 2, 1, 0, 2, 1, 1, 2, 3, 0, 255, 255, 2, 1, 2] ++ ([4, 130, 1, 3] ++ conf) : Bytes) = body
+  have hbl : body.length = 361 := by rw [← hB]; simp [hc]
+  show ([127, 101] : Bytes) ++ Nla.derLen body.length ++ body = ciPrefix ++ conf
+  rw [hbl]
+  have : Nla.derLen 361 = [130, 1, 105] := by decide
+  rw [this, ← hB]
+  simp [ciPrefix]
+
+theorem connectInitial_strict (conf : Bytes) (hc : conf.length = 259) (hg : gccCreateRequest conf = .ok ()) :
+    Strict.connectInitial (ciPrefix ++ conf) = .ok () := by
+  unfold Strict.connectInitial ciPrefix
+  simp [takeN, Strict.derLen, tlv, Strict.u8, derInt, domainParams, domainParams.go, need, bind, Except.bind, pure, Except.pure, hc, leNat]
+  rw [List.take_of_length_le (by omega)]
+  exact hg
+
+/-- **The connect-initial frame is well formed for every configuration.**  For every screen
+    size, layout, selected protocol and client name (any Unicode string), the frame carrying
+    MCS connect-initial is accepted by the strict decoders at every layer: TPKT length, X.224
+    data header, BER structure with exact definite lengths, the three domain-parameter sets,
+    the T.124 conference-create request with both PER lengths equal to the sizes they
+    describe, and the three client data blocks (core with its fixed 32-byte terminated name,
+    security, network) whose length fields sum to the user data. -/
+theorem c04_connectInitial_strict (w h layout selected : Nat) (name : List Char) (hw : 1 ≤ w ∧ w < 65536)
+    (hh : 1 ≤ h ∧ h < 65536) (hl : layout < 4294967296) (hs : selected < 4294967296) :
+    ∃ f, connectInitialFrame w h layout selected name = .ok f ∧ Strict.frame f = .ok () := by
+  have hud := c04_userData_size w h layout selected name
+  have hb := userData_strict w h layout selected name hw hh hl hs
+  unfold connectInitialFrame
+  rw [conference_bytes _ hud]
+  simp only [Outcome.bind_ok]
+  generalize hC : ([0, 5, 0, 20, 124, 0, 1, 0x80, 250, 0, 8, 0, 0x10, 0, 1, 0xc0, 0, 0x44, 0x75, 0x63, 0x61, 0x80, 236] ++ userData w h layout selected name : Bytes) = conf
+  have hc : conf.length = 259 := by rw [← hC]; simp [hud]
+  have hg : gccCreateRequest conf = .ok () := by rw [← hC]; exact gcc_strict _ hud hb
+  rw [connectInitial_bytes conf hc]
+  have hlen : (ciPrefix ++ conf).length = 366 := by simp [ciPrefix, hc]
+  unfold x224Frame
+  simp only [x224DataHeader, List.length_append, List.length_cons, List.length_nil, hlen]
+  rw [if_neg (by omega)]
+  refine ⟨_, rfl, ?_⟩
+  have hth : tpktHeader (0 + 1 + 1 + 1 + 366) = [3, 0, 1, 117] := by decide
+  rw [hth]
+  have hci := connectInitial_strict conf hc hg
+  have hm : mcsPdu (ciPrefix ++ conf) = Strict.connectInitial (ciPrefix ++ conf) := by
+    simp [ciPrefix, mcsPdu]
+  unfold Strict.frame
+  have ht : takeN 4 ([3, 0, 1, 117] ++ ([2, 240, 128] ++ (ciPrefix ++ conf))) "TPKT header" = .ok ([3, 0, 1, 117], [2, 240, 128] ++ (ciPrefix ++ conf)) :=
+    takeN_len 4 [3, 0, 1, 117] _ _ rfl
+  rw [ht]
+  simp only [bind, Except.bind, need]
+  rw [if_pos (by decide)]
+  simp only
+  rw [if_pos (by simp [hlen, leNat])]
+  simp only [List.cons_append, List.nil_append]
+  rw [hm, hci]
 
 end Rdp.Emit
